@@ -158,8 +158,39 @@ type lockProblem struct {
 	detail string
 }
 
-// lockFlow runs the must-hold dataflow on fn from the given entry lockset.
+// lockFlow runs the must-hold dataflow on fn from the given entry lockset and
+// extends the per-instruction result to fn's private helpers (scopeOf), each
+// entered with the locks held at its call sites.
 func lockFlow(fn *ssa.Function, entry LockSet) *funcLockInfo {
+	fi := lockFlowRaw(fn, entry)
+	scope := scopeOf(fn)
+	for _, h := range scope[1:] {
+		var ctx LockSet
+		first := true
+		for _, c := range staticCallers[h] {
+			ls, ok := fi.at[c]
+			if !ok {
+				continue
+			}
+			if first {
+				ctx, first = ls.clone(), false
+			} else {
+				ctx = intersect(ctx, ls)
+			}
+		}
+		if ctx == nil {
+			ctx = LockSet{}
+		}
+		hfi := lockFlowRaw(h, ctx)
+		for in, ls := range hfi.at {
+			fi.at[in] = ls
+		}
+	}
+	return fi
+}
+
+// lockFlowRaw: the intraprocedural dataflow.
+func lockFlowRaw(fn *ssa.Function, entry LockSet) *funcLockInfo {
 	info := &funcLockInfo{in: map[*ssa.BasicBlock]lockState{}, at: map[ssa.Instruction]LockSet{}}
 	if len(fn.Blocks) == 0 {
 		return info
@@ -719,7 +750,7 @@ func (la *LockAnalysis) flow(fn *ssa.Function, entry LockSet) *funcLockInfo {
 	if fi, ok := la.flowMemo[k]; ok {
 		return fi
 	}
-	fi := lockFlow(fn, entry)
+	fi := lockFlowRaw(fn, entry)
 	la.flowMemo[k] = fi
 	return fi
 }
